@@ -5,8 +5,10 @@ import Proofs.C02
 #print axioms C02.store_independent_of_stale_slots
 #print axioms C02.files_labels
 #print axioms C02.reader_refines_spec
+#print axioms C02.ignored_lines_inert
 #print axioms C02.scan_iterates
 #print axioms C02.pending_new
+#print axioms C02.fields_fuel_sufficient
 #print axioms C02.files_no_leak
 #print axioms C02.files_refine_spec
 #print axioms C02.units_carry
